@@ -41,9 +41,9 @@ static inline void hist_nd(const unsigned char* ops, const unsigned char* tgt, c
                            int* rets, size_t* odim, size_t* oshape, size_t* ostrides, size_t* olen, unsigned* odata,
                            const size_t* p1, const size_t* p2, size_t* ooff, unsigned* oval)
 {
-  A x[2];
+  A x0, x1; A* const x[2] = { &x0, &x1 };
   for (size_t s = 0; s < k; s++) {
-    A& me = x[tgt[s] & 1]; A& other = x[(tgt[s] & 1) ^ 1];
+    A& me = (tgt[s] & 1) ? x1 : x0; A& other = (tgt[s] & 1) ? x0 : x1;
     switch (ops[s]) {
       case 0: rets[s] = me.resize(mk_sv<size_t,4>(sh + 4*s, sdim[s])) ? 1 : 0; break;
       case 1: me(mk_sv<size_t,3>(widx + 3*s, nm::len(nm::shape(me)))) = v[s]; break;
@@ -52,8 +52,8 @@ static inline void hist_nd(const unsigned char* ops, const unsigned char* tgt, c
       default: me = me; break;
     }
   }
-  for (int t = 0; t < 2; t++) observe_nd(x[t], odim + t, oshape + 3*t, ostrides + 3*t, olen + t, odata + CAPN*t);
-  const A& c0 = x[0];
+  for (int t = 0; t < 2; t++) observe_nd(*x[t], odim + t, oshape + 3*t, ostrides + 3*t, olen + t, odata + CAPN*t);
+  const A& c0 = x0;
   auto i1 = mk_sv<size_t,3>(p1, nm::len(nm::shape(c0))); auto i2 = mk_sv<size_t,3>(p2, nm::len(nm::shape(c0)));
   ooff[0] = c0.offset(i1); ooff[1] = c0.offset(i2);
   oval[0] = c0(i1); oval[1] = c0(i2);
@@ -74,9 +74,9 @@ HIST_ND(k_hist_A3_row, A3_row)
 KERNEL void K(k_hist_hybrid2)(const unsigned char* ops, const unsigned char* tgt, const size_t* sh, const size_t* widx, const unsigned* v, size_t k,
                               int* rets, size_t* oshape, size_t* ostrides, unsigned* oelems /* 2 x 4x4 grid, row-major in the index */, size_t maxe){
   using H = na::hybrid_ndarray<unsigned,CAPN,2>;
-  H x[2];
+  H x0, x1; H* const x[2] = { &x0, &x1 };
   for (size_t s = 0; s < k; s++) {
-    H& me = x[tgt[s] & 1]; H& other = x[(tgt[s] & 1) ^ 1];
+    H& me = (tgt[s] & 1) ? x1 : x0; H& other = (tgt[s] & 1) ? x0 : x1;
     switch (ops[s]) {
       case 0: rets[s] = me.resize(sh[4*s], sh[4*s+1]) ? 1 : 0; break;
       case 1: me(widx[3*s], widx[3*s+1]) = v[s]; break;
@@ -86,18 +86,18 @@ KERNEL void K(k_hist_hybrid2)(const unsigned char* ops, const unsigned char* tgt
     }
   }
   for (int t = 0; t < 2; t++) {
-    put(x[t].shape(), oshape + 2*t); put(x[t].strides(), ostrides + 2*t);
-    auto s = x[t].shape();
-    for (size_t i = 0; i < (size_t)nm::at(s,0) && i < maxe; i++) for (size_t j = 0; j < (size_t)nm::at(s,1) && j < maxe; j++) oelems[16*t + 4*i + j] = x[t](i,j);
+    put(x[t]->shape(), oshape + 2*t); put(x[t]->strides(), ostrides + 2*t);
+    auto s = x[t]->shape();
+    for (size_t i = 0; i < (size_t)nm::at(s,0) && i < maxe; i++) for (size_t j = 0; j < (size_t)nm::at(s,1) && j < maxe; j++) oelems[16*t + 4*i + j] = (*x[t])(i,j);
   }
 }
 // dynamic_ndarray<unsigned>: op 0 resize(shape of sdim extents)  1 x[t](i,j,..) = v via at  2 assign other  3 copy-construct+assign  4 self-assign
 KERNEL void K(k_hist_dynamic)(const unsigned char* ops, const unsigned char* tgt, const size_t* sdim, const size_t* sh, const size_t* wpos, const unsigned* v, size_t k,
                               size_t* odim, size_t* oshape, size_t* ostrides, size_t* olen, unsigned* odata){
   using D = na::dynamic_ndarray<unsigned>;
-  D x[2];
+  D x0, x1; D* const x[2] = { &x0, &x1 };
   for (size_t s = 0; s < k; s++) {
-    D& me = x[tgt[s] & 1]; D& other = x[(tgt[s] & 1) ^ 1];
+    D& me = (tgt[s] & 1) ? x1 : x0; D& other = (tgt[s] & 1) ? x0 : x1;
     switch (ops[s]) {
       case 0: me.resize(mk_sv<size_t,4>(sh + 4*s, sdim[s])); break;
       case 1: me.data[wpos[s]] = v[s]; break;
@@ -107,9 +107,9 @@ KERNEL void K(k_hist_dynamic)(const unsigned char* ops, const unsigned char* tgt
     }
   }
   for (int t = 0; t < 2; t++) {
-    odim[t] = put(x[t].shape(), oshape + 3*t); put(x[t].strides(), ostrides + 3*t);
-    olen[t] = x[t].data.size();
-    for (size_t i = 0; i < x[t].data.size() && i < CAPN; i++) odata[CAPN*t + i] = x[t].data[i];
+    odim[t] = put(x[t]->shape(), oshape + 3*t); put(x[t]->strides(), ostrides + 3*t);
+    olen[t] = x[t]->data.size();
+    for (size_t i = 0; i < x[t]->data.size() && i < CAPN; i++) odata[CAPN*t + i] = x[t]->data[i];
   }
 }
 // dynamic_ndarray = generic ndarray (hybrid source): operator=(const ndarray_t&)
@@ -124,10 +124,10 @@ KERNEL int K(k_dynamic_assign_from)(const size_t* dshape, const size_t* sshape, 
 // fixed_ndarray<unsigned,2,3>: op 0 x[t](i,j) = v  1 assign other  2 copy-construct+assign  3 self-assign
 KERNEL void K(k_hist_fixed23)(const unsigned char* ops, const unsigned char* tgt, const size_t* widx, const unsigned* v, size_t k, const unsigned* init, size_t* oshape, size_t* ostrides, unsigned* oelems){
   using F = na::fixed_ndarray<unsigned,2,3>;
-  F x[2];
-  for (int t = 0; t < 2; t++) for (size_t i = 0; i < 2; i++) for (size_t j = 0; j < 3; j++) x[t](i,j) = init[6*t + 3*i + j];
+  F x0, x1; F* const x[2] = { &x0, &x1 };
+  for (int t = 0; t < 2; t++) for (size_t i = 0; i < 2; i++) for (size_t j = 0; j < 3; j++) (*x[t])(i,j) = init[6*t + 3*i + j];
   for (size_t s = 0; s < k; s++) {
-    F& me = x[tgt[s] & 1]; F& other = x[(tgt[s] & 1) ^ 1];
+    F& me = (tgt[s] & 1) ? x1 : x0; F& other = (tgt[s] & 1) ? x0 : x1;
     switch (ops[s]) {
       case 0: me(widx[3*s], widx[3*s+1]) = v[s]; break;
       case 1: me = other; break;
@@ -135,8 +135,8 @@ KERNEL void K(k_hist_fixed23)(const unsigned char* ops, const unsigned char* tgt
       default: me = me; break;
     }
   }
-  put(x[0].shape(), oshape); put(x[0].strides(), ostrides);
-  for (int t = 0; t < 2; t++) for (size_t i = 0; i < 2; i++) for (size_t j = 0; j < 3; j++) oelems[6*t + 3*i + j] = x[t](i,j);
+  put(x[0]->shape(), oshape); put(x[0]->strides(), ostrides);
+  for (int t = 0; t < 2; t++) for (size_t i = 0; i < 2; i++) for (size_t j = 0; j < 3; j++) oelems[6*t + 3*i + j] = (*x[t])(i,j);
 }
 
 // ---------------------------------------------------------------- cast
